@@ -64,7 +64,7 @@ def exOr : Oracles :=
 
 /-- "Hi, there" with snippets "A b" / "c"; `plan` is the plan's reflection flag. -/
 def exTurn (plan : Bool) (turn : Nat) : TurnIn :=
-  { agent := [97], turn := [48 + turn], nowMs := 0, dry := false, t4on := true, planFlag := plan,
+  { agent := [97], turn := [48 + turn], nowMs := some 0, isoPreset := none, dry := false, t4on := true, planFlag := plan,
     stateFlag := false, cfg := exCfg, utter := [72, 105, 44, 32, 116, 104, 101, 114, 101],
     items := [[65, 32, 98], [99]], arts := [] }
 
@@ -108,7 +108,7 @@ theorem C19_ops_cap (clear : Bool) (c : CtxSt) (t : TurnIn) (o : Oracles) :
   · cases hs : stashAfter clear c t o with
     | none => simp [tailOut]
     | some res =>
-      have := writeEntries_length t o (c.nowIso.getD t.nowMs) res
+      have := writeEntriesAt_length t o (tsOf (headIso c t) t.nowMs) res
       simp only [tailOut]; omega
 
 theorem C19_ops_cap_zero (clear : Bool) (c : CtxSt) (t : TurnIn) (o : Oracles)
@@ -137,7 +137,7 @@ theorem C19_ops_cap_real (c : CtxSt) (t : TurnIn) (o : Oracles) (hm : o.mode = .
   · split
     · simp
     · rename_i res hres
-      have hl := writeEntries_length t o (c.nowIso.getD t.nowMs) res
+      have hl := writeEntriesAt_length t o (tsOf (headIso c t) t.nowMs) res
       have : res.entries.length ≤ 1 := by
         unfold gateCall at hres
         split at hres
@@ -227,7 +227,7 @@ of the result entry at that slot — nothing else enters `_episode_id` / `ts` (n
 elapsed time, no configuration, no fault script). -/
 theorem C19_id_pure (clear : Bool) (c : CtxSt) (t : TurnIn) (o : Oracles) :
     ∀ w ∈ (tail clear c t o).2.written,
-      w.agent = t.agent ∧ w.turn = t.turn ∧ w.tsMs = c.nowIso.getD t.nowMs ∧
+      w.agent = t.agent ∧ w.turn = t.turn ∧ some w.ts = tsOf (headIso c t) t.nowMs ∧
       w.slot < capNat t.cfg.opsCap ∧ w.text = strip w.idText := by
   intro w hw
   unfold tail at hw
@@ -237,6 +237,8 @@ theorem C19_id_pure (clear : Bool) (c : CtxSt) (t : TurnIn) (o : Oracles) :
     | none => simp [hs, tailOut] at hw
     | some res =>
       simp only [hs, tailOut] at hw
+      obtain ⟨x, hx, hw⟩ := writeEntriesAt_mem _ _ _ _ _ hw
+      rw [hx]
       unfold writeEntries at hw
       split at hw
       · simp at hw
@@ -250,9 +252,27 @@ theorem C19_id_pure (clear : Bool) (c : CtxSt) (t : TurnIn) (o : Oracles) :
             · split at hw
               · simp at hw
               · obtain ⟨h1, h2, h3, _, h5, e, _, h7, h8, _⟩ := addLoop_mem _ _ _ _ _ _ w hw
-                refine ⟨h1, h2, h3, ?_, by rw [h8, h7]⟩
+                refine ⟨h1, h2, by rw [h3], ?_, by rw [h8, h7]⟩
                 rw [List.length_take] at h5
                 simp only [capNat, hcap]; omega
+
+/-- No usable turn clock (`ctx.now_ms` is `None`): `_now_iso_from_ctx` raises inside the writer, the tail
+swallows it and nothing is written — the writer never substitutes another clock. -/
+theorem C19_ts_needs_clock (clear : Bool) (c : CtxSt) (t : TurnIn) (o : Oracles) (h : t.nowMs = none) :
+    (tail clear c t o).2.written = [] := by
+  unfold tail
+  split
+  · rfl
+  · cases hs : stashAfter clear c t o with
+    | none => simp [tailOut]
+    | some res => simp [tailOut, tsOf, h, writeEntriesAt]
+
+/-- The timestamp at the clock's origin is the epoch-derived value, as for any other `now_ms`
+(non-vacuity of the `ts` clause at the boundary the smoke-turn ctx sits on). -/
+example : tsOf (headIso CtxSt.fresh (exTurn true 1)) (some 0) = some (.iso 0) ∧
+    tsOf (headIso CtxSt.fresh { exTurn true 1 with isoPreset := some .nonstr }) (some 0) = some (.fallback 0) ∧
+    tsOf (headIso CtxSt.fresh { exTurn true 1 with isoPreset := some (.lit [90]) }) (some 7) = some (.lit [90]) := by
+  decide
 
 /-- The id the writer builds, with the sha256 digest as an arbitrary oracle `D`. -/
 def episodeId (D : Str → Str → Nat → Str → Str) (w : Written) : Str × Str × Nat × Str :=
@@ -306,6 +326,9 @@ theorem C19_failsoft (c : CtxSt) (t : TurnIn) (o : Oracles) (h : failed t o = tr
         · injection hres with hres
           unfold failed at h
           simp only [hrf, Bool.false_or, Bool.or_eq_true] at h
+          unfold writeEntriesAt
+          split
+          · rfl
           unfold writeEntries
           rcases h with (h | h) | h
           · simp [h]
